@@ -33,6 +33,8 @@ def handlePipes (op : String) (a : Json) : Option Json :=
     some (Json.mkObj [("completed", Json.bool (final st)),
       ("stdout", Json.num (JsonNumber.fromNat (progBytes .out prog))),
       ("stderr", Json.num (JsonNumber.fromNat (progBytes .err prog))),
+      ("stdout_runs", Json.arr ((contentRuns .out 0 prog).map fun r => Json.arr #[Json.num (JsonNumber.fromNat r.1), Json.num (JsonNumber.fromNat r.2)]).toArray),
+      ("stderr_runs", Json.arr ((contentRuns .err 0 prog).map fun r => Json.arr #[Json.num (JsonNumber.fromNat r.1), Json.num (JsonNumber.fromNat r.2)]).toArray),
       ("complete_in_model", Json.bool (st.outGot == progBytes .out progU && st.errGot == progBytes .err progU)),
       ("exit", Json.num (JsonNumber.fromInt (exitCode wr)))])
   | _ => none
